@@ -210,8 +210,10 @@ func setup(sc scenario, seq *int) sched.Harness {
 			if res.Abort == "" {
 				w.final()
 			}
-			for _, e := range w.db.Errors {
-				w.bad("table: " + e)
+			if !w.closing {
+				for _, e := range w.db.Errors {
+					w.bad("table: " + e)
+				}
 			}
 			keys := make([]string, 0, len(w.viol))
 			for k := range w.viol {
